@@ -370,12 +370,20 @@ func checkC12(c *Ctx, r *Report) {
 						}
 						// accumulator starts empty and is only updated by this append
 						startsEmpty, onlyThis := false, true
+						aliasing := false
 						for i, e := range acc.Edges {
 							if !L.Blocks[L.Header.Preds[i]] {
 								switch x := e.(type) {
 								case *ssa.Slice:
+									// list[:0] of a fresh list is empty; list[:0] of the preference list itself
+									// shares its backing array: appending overwrites the caller's (or the
+									// default) preferences, so the next selection runs on a changed list
 									if k, isK := constInt(x.High); isK && k == 0 {
-										startsEmpty = true
+										if x.X == ssa.Value(eff) || x.X == ssa.Value(desired) {
+											aliasing = true
+										} else {
+											startsEmpty = true
+										}
 									}
 								case *ssa.Const:
 									startsEmpty = x.Value == nil
@@ -396,6 +404,9 @@ func checkC12(c *Ctx, r *Report) {
 									onlyThis = false
 								}
 							}
+						}
+						if aliasing {
+							whyLoop = "the advertised preferences are collected into the preference list's own backing array: the caller's (or the default) list is overwritten and later selections run on a changed list"
 						}
 						if !appended || !startsEmpty || !onlyThis {
 							continue
@@ -556,4 +567,36 @@ func checkC12(c *Ctx, r *Report) {
 		}
 		r.Check(!bad, fname+"|(nil,nil)", pos, "never returns (nil, nil)", "returns (nil, nil) for some algorithm: the caller registers/invokes a nil layer or signs with a nil hash (panic or unauthenticated packets)")
 	}
+
+	// ---- (5) the advertised set: every algorithm combination of a record is a suite the selector
+	// can match (shared with C16) — a record listing several confidentiality or integrity
+	// algorithms must not lose any of them
+	if parser := c.cipherSuiteParser(); parser != nil {
+		checkCipherSuiteParser(c, r, parser)
+	} else {
+		r.Rule("expansion-order", "", 1)
+		r.Lost("cipher suite record parser")
+	}
+
+}
+
+
+// cipherSuiteParser: the function of package bmc taking a byte slice and
+// returning ([]ipmi.CipherSuiteRecord, error).
+func (c *Ctx) cipherSuiteParser() *ssa.Function {
+	recT := c.Named("pkg/ipmi", "CipherSuiteRecord")
+	for _, fn := range c.LibFuncs() {
+		if fn.Pkg == nil || fn.Pkg.Pkg.Path() != modPath || fn.Parent() != nil || fn.Signature.Results().Len() != 2 || len(fn.Params) != 1 {
+			continue
+		}
+		if _, isSl := fn.Params[0].Type().(*types.Slice); !isSl {
+			continue
+		}
+		if sl, ok := fn.Signature.Results().At(0).Type().(*types.Slice); ok {
+			if n, ok := sl.Elem().(*types.Named); ok && recT != nil && n.Obj() == recT.Obj() {
+				return fn
+			}
+		}
+	}
+	return nil
 }
